@@ -9,5 +9,6 @@ import Ufw.Tie.RegTable
 #print axioms Ufw.Props.C01.set_refuses_invalid
 #print axioms Ufw.Props.C01.set_refuses_bad_float
 #print axioms Ufw.Props.C01.unsafe_eq_checked
+#print axioms Ufw.Props.C01.set_succeeds_iff
 #print axioms Ufw.Tie.RegTable.const_rds_size
 #print axioms Ufw.Tie.RegTable.const_enums
